@@ -83,15 +83,27 @@ def payload(i: int, kind: int) -> Dict[str, Any]:
     """Event payload per the ASGI spec: connect carries nothing, receive carries text+bytes, disconnect code+reason."""
     e = cur()
     if kind == 1:
-        return {"text": SStr.fresh(1, f"t{i}_", 0, 0x10FFFF), "bytes": SBytes.fresh(1, f"b{i}_", 0, 255)}
+        # a frame may be EMPTY (legal): fork-decided per frame, recorded for the concrete replay
+        # the frame's shape is fork-decided and recorded for the concrete replay: a text or a bytes frame (the other key None, as servers
+        # deliver it), empty (legal) or not
+        shape = e.choose(4, f"frameshape{i}")  # 0 text, 1 empty text, 2 bytes, 3 empty bytes
+        e.path_notes.setdefault("empty_frames", {})[i] = shape
+        if shape == 0:
+            return {"text": SStr.fresh(1, f"t{i}_", 0, 0x10FFFF), "bytes": None}
+        if shape == 1:
+            return {"text": "", "bytes": None}
+        if shape == 2:
+            return {"text": None, "bytes": SBytes.fresh(1, f"b{i}_", 0, 255)}
+        return {"text": None, "bytes": b""}
     if kind == 2:
         return {"code": e.fresh(f"code{i}", 1000, 4999), "reason": SStr.fresh(1, f"r{i}_", 0, 0x10FFFF)}
     return {}
 
 
-def cpayload(i: int, kind: int) -> Dict[str, Any]:
+def cpayload(i: int, kind: int, empties=None) -> Dict[str, Any]:
     if kind == 1:
-        return {"text": f"T{i}", "bytes": bytes([65 + i])}
+        shape = (empties or {}).get(i, (empties or {}).get(str(i), 0))
+        return [{"text": f"T{i}", "bytes": None}, {"text": "", "bytes": None}, {"text": None, "bytes": bytes([65 + i])}, {"text": None, "bytes": b""}][shape]
     if kind == 2:
         return {"code": 1000 + i, "reason": f"R{i}"}
     return {}
@@ -290,12 +302,13 @@ def reach_prestate(cs: int, as_: int, srv_events_prefix: List[str]):
     return hist
 
 
-def concrete_history(cs: int, as_: int, call: str, evs: List[int]) -> Optional[str]:
+def concrete_history(cs: int, as_: int, call: str, evs: List[int], empties=None) -> Optional[str]:
     """Replay on concrete values through the public API only. Returns failure description or None."""
     pre = reach_prestate(cs, as_, [])
     npre = len([1 for c, ev in pre if c == "receive"])
     script = [EVENTS.index(ev) for c, ev in pre if c == "receive"] + list(evs) + [2]
-    payloads = [cpayload(i, k) for i, k in enumerate(script)]
+    shifted = {int(k) + npre: v for k, v in (empties or {}).items()}  # the step family numbers frames from the step's own first event
+    payloads = [cpayload(i, k, shifted) for i, k in enumerate(script)]
     srv = Server(script, payloads)
     ws = WebSocket({"type": "websocket", "headers": []}, srv.receive, srv.send)
     for c, _ in pre:
@@ -342,14 +355,14 @@ def job_step(job) -> report.JobResult:
         if kind == "exc":
             klass = v.klass if isinstance(v, Fail) else f"harness-exception:{type(v).__name__}"
             detail = v.detail if isinstance(v, Fail) else repr(v)
-            cp = concrete_history(n["cs"], n["as_"], call, n["ev"])
+            cp = concrete_history(n["cs"], n["as_"], call, n["ev"], n.get("empty_frames"))
             res.violation(f"C11/{call}/{klass}", {"client_state": ST[n["cs"]].name, "application_state": ST[n["as_"]].name, "call": call,
-                                               "server_events": [EVENTS[i] for i in n["ev"]],
+                                               "server_events": [EVENTS[i] for i in n["ev"]], "empty_frames": {str(k): v for k, v in n.get("empty_frames", {}).items()},
                                                "history": reach_prestate(n["cs"], n["as_"], []) + [(call, None)]},
                           f"{klass} {detail}; concrete public-API history: {cp}", (cp is not None) or twin)
             return
         res.kind(v)
-        cp = concrete_history(n["cs"], n["as_"], call, n["ev"])
+        cp = concrete_history(n["cs"], n["as_"], call, n["ev"], n.get("empty_frames"))
         if cp is not None:
             res["harness_errors"].append(f"symbolic step holds but concrete history fails: {n} {call}: {cp}")
         res["validated"] += 1
@@ -417,13 +430,14 @@ def job_seq(job) -> report.JobResult:
         if kind == "exc":
             klass = v.klass if isinstance(v, Fail) else f"harness-exception:{type(v).__name__}"
             detail = v.detail if isinstance(v, Fail) else repr(v)
-            cp = concrete_seq(n.get("trace", []), n.get("script", []))
-            res.violation(f"C11/seq/{klass}", {"calls": n.get("trace"), "server_script": [EVENTS[i] for i in n.get("script", [])]},
+            cp = concrete_seq(n.get("trace", []), n.get("script", []), n.get("empty_frames"))
+            res.violation(f"C11/seq/{klass}", {"calls": n.get("trace"), "server_script": [EVENTS[i] for i in n.get("script", [])],
+                                               "empty_frames": {str(k): v for k, v in n.get("empty_frames", {}).items()}},
                           f"{klass} {detail}; concrete: {cp}", (cp is not None) or twin)
             return
         res.kind(v)
         if res["validated"] < 300:
-            cp = concrete_seq(n.get("trace", []), n.get("script", []))
+            cp = concrete_seq(n.get("trace", []), n.get("script", []), n.get("empty_frames"))
             if cp is not None:
                 res["harness_errors"].append(f"symbolic history holds but concrete fails: {n}: {cp}")
             res["validated"] += 1
@@ -434,8 +448,8 @@ def job_seq(job) -> report.JobResult:
     return res
 
 
-def concrete_seq(trace: List[str], script: List[int]) -> Optional[str]:
-    payloads = [cpayload(i, k) for i, k in enumerate(script)]
+def concrete_seq(trace: List[str], script: List[int], empties=None) -> Optional[str]:
+    payloads = [cpayload(i, k, empties) for i, k in enumerate(script)]
     srv = Server(list(script), payloads)
     ws = WebSocket({"type": "websocket", "headers": []}, srv.receive, srv.send)
     all_sent = []
@@ -912,9 +926,9 @@ def replay(rec) -> int:
         print(f"replay C11: {w} -> {cp}")
         return 1 if cp else 0
     if "calls" in w:
-        cp = concrete_seq(w["calls"], [EVENTS.index(x) for x in w["server_script"]])
+        cp = concrete_seq(w["calls"], [EVENTS.index(x) for x in w["server_script"]], w.get("empty_frames"))
     else:
         cp = concrete_history([s.name for s in ST].index(w["client_state"]), [s.name for s in ST].index(w["application_state"]), w["call"],
-                              [EVENTS.index(x) for x in w["server_events"]])
+                              [EVENTS.index(x) for x in w["server_events"]], w.get("empty_frames"))
     print(f"replay C11: {w} -> {cp}")
     return 1 if cp else 0
